@@ -614,6 +614,10 @@ func (x *Exec) applyContract(c *CallCtx, ct *Contract) []Outcome {
 		var v Value
 		if isObjectType(rv.Type()) {
 			v = ObjV{Path: "ret_" + fn.Name(), Ty: rv.Type()}
+		} else if _, isMap := rv.Type().Underlying().(*types.Map); isMap {
+			// a Go map result is a reference: back it with a cell so the caller can update it
+			tv := x.freshTV("ret_"+fn.Name(), rv.Type(), st)
+			v = MapRef{Cell: x.newCell(st, tv, rv.Type()), Ty: rv.Type()}
 		} else if pt, ok := rv.Type().Underlying().(*types.Pointer); ok && !strings.HasPrefix(x.enc.Sort(rv.Type()), "(Opt") {
 			_ = pt
 			v = x.freshTV("ret_"+fn.Name(), rv.Type(), st)
